@@ -17,7 +17,7 @@ pub open spec fn loc_wf(l: MemoryLoc) -> bool {
 }
 
 pub open spec fn log_extends(old_log: Seq<Ev>, new_log: Seq<Ev>) -> bool {
-    old_log.len() <= new_log.len() && forall|i: int| 0 <= i < old_log.len() ==> #[trigger] new_log[i] == old_log[i]
+    old_log.len() <= new_log.len() && forall|i: int| #![trigger new_log[i]] #![trigger old_log[i]] 0 <= i < old_log.len() ==> new_log[i] == old_log[i]
 }
 /// every event appended from index `from` on is pure, a read, a slot creation, or a write
 /// that stays inside bytes [lo, hi) of object `base`
@@ -28,7 +28,7 @@ pub open spec fn only_writes_within(log: Seq<Ev>, from: int, base: Base, lo: int
 pub open spec fn ev_quiet(e: Ev) -> bool { !(e is Write) && !(e is Call) && !(e is Trap) }
 pub open spec fn ev_within(e: Ev, base: Base, lo: int, hi: int) -> bool {
     match e {
-        Ev::Write { base: b, lo: l, hi: h } => b == base && lo <= l && l <= h && h <= hi,
+        Ev::Write { base: b, lo: l, hi: h, .. } => b == base && lo <= l && l <= h && h <= hi,
         _ => ev_quiet(e),
     }
 }
